@@ -7,8 +7,6 @@ import (
 	"math/big"
 	"math/bits"
 	"strings"
-	"sync/atomic"
-	"time"
 
 	"verif/internal/h"
 
@@ -399,14 +397,12 @@ func (c LitCase) construct() (b built, err error) {
 	}
 }
 
-var leakedSpinners atomic.Int32
-
 const ciOddKey = "Q-log2=61:ci-odd-logN"
 
 const hangKey = "C19:GenModuli:hang:root-order-2^62-or-more"
 
 // constructGuarded runs construct; literals for which a non-terminating prime search is predicted are run under a
-// watchdog (at most twice per process, the spinning goroutine cannot be stopped).
+// watchdog (see watchdog_test.go).
 func (c LitCase) constructGuarded(rec *h.Rec) (b built, err error, skipped bool) {
 	if !c.hangPredicted() {
 		b, err = c.construct()
@@ -417,34 +413,18 @@ func (c LitCase) constructGuarded(rec *h.Rec) (b built, err error, skipped bool)
 		rec.Class("known=genmoduli-hang(not executed)")
 		return b, nil, true
 	}
-	if leakedSpinners.Load() >= 2 {
-		return b, h.Failf(hangKey, "%s (not re-executed: two spinning goroutines already leaked in this process)", msg), true
+	var (
+		bb built
+		ee error
+	)
+	pan, werr := guarded(rec, hangKey, msg, func() { bb, ee = c.construct() })
+	if werr != nil {
+		return b, werr, true
 	}
-	type res struct {
-		b   built
-		err error
-		pan any
+	if pan != nil {
+		return b, h.Failf("C19:"+c.Scheme+":panic-in-constructor:huge-root-order", "panic: %v", pan), true
 	}
-	ch := make(chan res, 1)
-	go func() {
-		defer func() {
-			if r := recover(); r != nil {
-				ch <- res{pan: r}
-			}
-		}()
-		bb, e := c.construct()
-		ch <- res{b: bb, err: e}
-	}()
-	select {
-	case r := <-ch:
-		if r.pan != nil {
-			return b, h.Failf("C19:"+c.Scheme+":panic-in-constructor:huge-root-order", "panic: %v", r.pan), true
-		}
-		return r.b, r.err, false
-	case <-time.After(10 * time.Second):
-		leakedSpinners.Add(1)
-		return b, h.Failf(hangKey, "%s (no result after 10 s)", msg), true
-	}
+	return bb, ee, false
 }
 
 // ---------------------------------------------------------------------------------------------------------------
